@@ -180,3 +180,674 @@ def relocate_helpers(index):
             cls.methods.setdefault(name, []).append(fi)
             done[f"{cls.qual}.{name}"] = fi.site
     return done
+
+
+# ---- procedure inlining -----------------------------------------------------------------------------------------------
+# A maintainer may move a few statements of an API function into a private helper that did not exist at the pinned commit
+# (a validator that raises or hands its argument back, a "record this entry" procedure).  The rules are stated on the
+# function a user calls, so such helpers are opened at their call sites before anything is analysed: the statements of the
+# helper, with its parameters replaced by the arguments, take the place of the call.  Only helpers that are *new* (not a
+# function of the pinned tree, core/anchors.json -- those are what the rules anchor on) are opened, only when the
+# substitution is plainly semantics-preserving (see _inlinable / _simple_arg), and the helper itself stays in the index.
+_ANCHORS = None
+
+
+def _anchors():
+    global _ANCHORS
+    if _ANCHORS is None:
+        import json
+        import os
+        with open(os.path.join(os.path.dirname(__file__), "anchors.json")) as f:
+            _ANCHORS = set(json.load(f))
+    return _ANCHORS
+
+
+def _own_nodes(fn):
+    """Nodes of a function body, not descending into nested function definitions, lambdas or classes."""
+    stack = list(fn.body)
+    while stack:
+        n = stack.pop()
+        yield n
+        for ch in ast.iter_child_nodes(n):
+            if not isinstance(ch, (ast.FunctionDef, ast.AsyncFunctionDef, ast.Lambda, ast.ClassDef)):
+                stack.append(ch)
+
+
+def _inlinable(fi):
+    """-> ('void' | 'identity', body statements, returned parameter) or None."""
+    node = fi.node
+    a = node.args
+    if a.vararg or a.kwarg or a.posonlyargs or isinstance(node, ast.AsyncFunctionDef):
+        return None
+    decos = set(fi.decorators)
+    if decos - {"staticmethod", "classmethod"}:
+        return None
+    body = [s for s in node.body if not (isinstance(s, ast.Expr) and isinstance(s.value, ast.Constant))]
+    if not body or len(body) > 12:
+        return None
+    for n in ast.walk(node):
+        if isinstance(n, (ast.Yield, ast.YieldFrom, ast.Await, ast.Global, ast.Nonlocal, ast.Lambda, ast.ClassDef, ast.Try, ast.With,
+                          ast.While, ast.NamedExpr)) or (isinstance(n, (ast.FunctionDef, ast.AsyncFunctionDef)) and n is not node):
+            return None
+        if isinstance(n, ast.Call) and isinstance(n.func, ast.Name) and n.func.id in ("locals", "vars", "super"):
+            return None
+    rets = [n for n in _own_nodes(node) if isinstance(n, ast.Return)]
+    params = [x.arg for x in a.args + a.kwonlyargs]
+    if len(rets) > 1 and all(r.value is not None for r in rets):
+        from .dsl import single_exit
+        import copy
+        one = single_exit(copy.deepcopy(body))          # `if c: return a` ... `return b`  ->  one exit through a local
+        if one is None:
+            return None
+        return ('value', one[:-1], one[-1].value)
+    if not rets:
+        return ('void', body, None)
+    if len(rets) == 1 and rets[0] is body[-1] and isinstance(rets[0].value, ast.Name) and rets[0].value.id in params and len(body) > 1:
+        return ('identity', body[:-1], rets[0].value.id)
+    if len(rets) == 1 and rets[0] is body[-1] and rets[0].value is not None and len(body) > 1 and \
+            not any(isinstance(n, ast.Call) and not (isinstance(n.func, ast.Name) and n.func.id in ("max", "min", "len", "id", "int", "tuple", "range", "bool"))
+                    for n in ast.walk(rets[0].value)):
+        return ('value', body[:-1], rets[0].value)      # statements, then one effect-free result expression
+    return None
+
+
+def _simple_arg(e):
+    """An argument that may be substituted for every use of the parameter: reading it has no effect and yields the same
+    value each time within the helper (names, attribute chains, constants, id()/len() of those, tuples of those)."""
+    if isinstance(e, (ast.Name, ast.Constant)):
+        return True
+    if isinstance(e, ast.Attribute):
+        return _simple_arg(e.value)
+    if isinstance(e, ast.Tuple):
+        return all(_simple_arg(x) for x in e.elts)
+    if isinstance(e, ast.Call) and isinstance(e.func, ast.Name) and e.func.id in ("id", "len") and len(e.args) == 1 and not e.keywords:
+        return _simple_arg(e.args[0])
+    return False
+
+
+class _Subst(ast.NodeTransformer):
+    def __init__(self, bind, rename):
+        self.bind, self.rename = bind, rename
+
+    def visit_Name(self, n):
+        if n.id in self.bind and isinstance(n.ctx, ast.Load):
+            import copy
+            return ast.copy_location(copy.deepcopy(self.bind[n.id]), n)
+        if n.id in self.rename:
+            return ast.copy_location(ast.Name(id=self.rename[n.id], ctx=n.ctx), n)
+        return n
+
+
+def _expand(call, target, kind, body, retparam, counter, static_cls=None):
+    """-> (statements, value expression or None) for one call of an inlinable helper, or None."""
+    import copy
+    node = target.node
+    a = node.args
+    pos = [x.arg for x in a.args]
+    is_method = target.cls is not None and "staticmethod" not in target.decorators
+    recv = None
+    if is_method:
+        if not pos:
+            return None
+        recv = pos[0]
+        pos = pos[1:]
+    kwonly = [x.arg for x in a.kwonlyargs]
+    if len(call.args) > len(pos) or any(isinstance(x, ast.Starred) for x in call.args) or any(k.arg is None for k in call.keywords):
+        return None
+    bind = dict(zip(pos, call.args))
+    for k in call.keywords:
+        if k.arg in bind or k.arg not in pos + kwonly:
+            return None
+        bind[k.arg] = k.value
+    for p, dflt in zip(pos[len(pos) - len(a.defaults):], a.defaults):
+        bind.setdefault(p, dflt)
+    for p, dflt in zip(kwonly, a.kw_defaults):
+        if dflt is not None:
+            bind.setdefault(p, dflt)
+    if set(bind) != set(pos + kwonly):
+        return None
+    stored = {n.id for n in ast.walk(node) if isinstance(n, ast.Name) and isinstance(n.ctx, (ast.Store, ast.Del))}
+    stored |= {n.arg for n in ast.walk(node) if isinstance(n, ast.arg)} - set(pos + kwonly) - ({recv} if recv else set())
+    counter[0] += 1
+    tag = f"__h{counter[0]}_"
+    pre = []
+    for p in list(bind):
+        if p in stored or not _simple_arg(bind[p]):
+            if p == retparam and p not in stored and False:
+                pass
+            tmp = tag + p
+            asg = ast.Assign(targets=[ast.Name(id=tmp, ctx=ast.Store())], value=copy.deepcopy(bind[p]))
+            ast.copy_location(asg, call)
+            pre.append(asg)
+            bind[p] = ast.Name(id=tmp, ctx=ast.Load())
+    rename = {n: tag + n for n in stored if n not in bind}
+    rename.update({p: bind[p].id for p in bind if p in stored})
+    if recv is not None:
+        if "classmethod" in target.decorators:
+            bind[recv] = ast.Name(id=target.cls.name, ctx=ast.Load()) if static_cls is None else static_cls
+        else:
+            bind[recv] = ast.Name(id="self", ctx=ast.Load())
+    sub = _Subst(bind, rename)
+    out = pre + [sub.visit(copy.deepcopy(s)) for s in body]
+    for s in out:
+        ast.fix_missing_locations(s)
+        for n in ast.walk(s):
+            n._inlined_from = target.site               # a copy: rules that enumerate sites count the original only
+    value = None
+    if kind == 'identity':
+        value = copy.deepcopy(bind[retparam])
+    elif kind == 'value':
+        tmp = tag + "ret"
+        asg = ast.Assign(targets=[ast.Name(id=tmp, ctx=ast.Store())], value=sub.visit(copy.deepcopy(retparam)))
+        ast.copy_location(asg, call)
+        ast.fix_missing_locations(asg)
+        out.append(asg)
+        value = ast.Name(id=tmp, ctx=ast.Load())
+    return out, value
+
+
+def _resolve_helper(index, fi, call):
+    """The FuncInfo a call refers to, when it is a private helper of the caller's own class or module."""
+    f = call.func
+    target = None
+    if isinstance(f, ast.Name):
+        target = fi.module.functions.get(f.id)
+    elif isinstance(f, ast.Attribute) and isinstance(f.value, ast.Name) and fi.cls is not None:
+        if f.value.id in ("self", "cls") and fi.node.args.args and fi.node.args.args[0].arg == f.value.id:
+            target = fi.cls.method(f.attr)
+        elif f.value.id == fi.cls.name or (fi.cls.outer is not None and f.value.id == fi.cls.outer.name):
+            k = fi.cls if f.value.id == fi.cls.name else fi.cls.outer
+            target = k.method(f.attr)
+            if target is not None and not ({"staticmethod", "classmethod"} & set(target.decorators)):
+                target = None
+    if target is None or target.node is fi.node:
+        return None
+    name = target.node.name
+    if not name.startswith("_") or name.startswith("__"):
+        return None
+    if f"{target.module.rel}::{target.qual}" in _anchors():
+        return None
+    if target.cls is not None and isinstance(f, ast.Attribute) and f.value.id == "self" and "classmethod" in target.decorators and \
+            any(isinstance(n, ast.Name) and n.id == target.node.args.args[0].arg for s in target.node.body for n in ast.walk(s)):
+        return None                                     # cls would be type(self): not expressible without evaluating it
+    return target
+
+
+def _unconditional_calls(expr):
+    """Call nodes of an expression that are evaluated exactly once whenever the expression is (not under and/or, a
+    conditional expression, a comprehension or a lambda), innermost first."""
+    out = []
+
+    def rec(e):
+        if isinstance(e, (ast.BoolOp, ast.IfExp)):
+            first = e.values[0] if isinstance(e, ast.BoolOp) else e.test
+            rec(first)
+            return
+        if isinstance(e, (ast.Lambda, ast.ListComp, ast.SetComp, ast.DictComp, ast.GeneratorExp)):
+            return
+        for ch in ast.iter_child_nodes(e):
+            if isinstance(ch, ast.expr):
+                rec(ch)
+        if isinstance(e, ast.Call):
+            out.append(e)
+    rec(expr)
+    return out
+
+
+def inline_procedures(index, max_rounds=3):
+    """Open new private helpers at their call sites (see the comment above).  Returns {caller site: [helper names]}."""
+    done = {}
+    counter = [0]
+    funcs = []
+    for m in index.modules.values():
+        funcs.extend(m.functions.values())
+        for c in m.all_classes():
+            for fs in c.methods.values():
+                funcs.extend(fs)
+    for _ in range(max_rounds):
+        changed = False
+        for fi in funcs:
+            if _inline_in(index, fi, fi.node.body, counter, done):
+                changed = True
+        if not changed:
+            break
+    return done
+
+
+def _inline_in(index, fi, stmts, counter, done):
+    changed = False
+    i = 0
+    while i < len(stmts):
+        s = stmts[i]
+        # nested blocks first
+        for field in ("body", "orelse", "finalbody"):
+            blk = getattr(s, field, None)
+            if isinstance(blk, list) and blk and isinstance(blk[0], ast.stmt) and not isinstance(s, (ast.FunctionDef, ast.AsyncFunctionDef, ast.ClassDef)):
+                if _inline_in(index, fi, blk, counter, done):
+                    changed = True
+        if isinstance(s, ast.Try):
+            for h in s.handlers:
+                if _inline_in(index, fi, h.body, counter, done):
+                    changed = True
+        # (1) the statement is the call
+        if isinstance(s, ast.Expr) and isinstance(s.value, ast.Call):
+            target = _resolve_helper(index, fi, s.value)
+            shape = _inlinable(target) if target is not None else None
+            if shape is not None:
+                r = _expand(s.value, target, *shape, counter)
+                if r is not None:
+                    new = r[0][:-1] if shape[0] == 'value' else r[0]
+                    stmts[i:i + 1] = new or [ast.copy_location(ast.Pass(), s)]
+                    done.setdefault(fi.site, []).append(target.qual)
+                    changed = True
+                    continue                            # re-examine from the same position
+        # (2) the call is evaluated unconditionally inside a simple statement: hoist the helper's statements
+        elif isinstance(s, (ast.Assign, ast.AugAssign, ast.Return, ast.Expr, ast.AnnAssign)) and getattr(s, "value", None) is not None:
+            hit = False
+            for call in _unconditional_calls(s.value):
+                target = _resolve_helper(index, fi, call)
+                shape = _inlinable(target) if target is not None else None
+                if shape is None or shape[0] == 'void':
+                    continue
+                # everything evaluated before the call in this statement must be effect-free: only accept when the
+                # call's arguments and the rest of the statement are reads (no other calls precede it)
+                others = [c_ for c_ in ast.walk(s.value) if isinstance(c_, ast.Call) and c_ is not call and
+                          not (isinstance(c_.func, ast.Name) and c_.func.id in ("max", "min", "len", "id", "int", "tuple", "range"))]
+                if any(c_.lineno < call.lineno or (c_.lineno == call.lineno and c_.col_offset < call.col_offset) for c_ in others
+                       if not any(x is call for x in ast.walk(c_))):
+                    continue
+                r = _expand(call, target, *shape, counter)
+                if r is None:
+                    continue
+                pre, value = r
+
+                class R(ast.NodeTransformer):
+                    def visit_Call(self, n):
+                        if n is call:
+                            return ast.copy_location(value, n)
+                        return self.generic_visit(n)
+                s.value = R().visit(s.value)
+                ast.fix_missing_locations(s)
+                stmts[i:i] = pre
+                i += len(pre)
+                done.setdefault(fi.site, []).append(target.qual)
+                changed = True
+                hit = True
+                break
+            if hit:
+                continue
+        i += 1
+    return changed
+
+
+# ---- constant tables ----------------------------------------------------------------------------------------------------
+def _table_expr(e, globals_):
+    """A display of constants and module-level names (a table a maintainer hoisted out of a function body)."""
+    if isinstance(e, ast.Constant):
+        return True
+    if isinstance(e, (ast.Tuple, ast.List)):
+        return all(_table_expr(x, globals_) for x in e.elts)
+    if isinstance(e, ast.Name):
+        return e.id in globals_
+    if isinstance(e, ast.Attribute):
+        return _table_expr(e.value, globals_) and not isinstance(e.value, ast.Constant)
+    if isinstance(e, ast.UnaryOp) and isinstance(e.op, ast.USub):
+        return isinstance(e.operand, ast.Constant)
+    return False
+
+
+def propagate_constants(index):
+    """Private constant tables hoisted to class or module level (`_VALID_WIDTHS = (8, 16, 32, 64)`) are put back where they
+    are read: `self._T`, `cls._T`, `Class._T` inside the class, `_T` inside the module.  Only names that are bound exactly
+    once in the whole package (no other assignment, no attribute store of that name anywhere) and whose value is a display
+    of constants and module-level names are touched, so the value read is the value written here.  Enum classes are left
+    alone (their members are handled by the enum tables).  Returns {site: name}."""
+    import copy
+    done = {}
+    stored_attrs = {}
+    for m in index.modules.values():
+        for n in ast.walk(m.tree):
+            if isinstance(n, ast.Attribute) and isinstance(n.ctx, (ast.Store, ast.Del)):
+                stored_attrs[n.attr] = stored_attrs.get(n.attr, 0) + 1
+    class_attr_count = {}
+    for c in index.all_classes():
+        for k in c.class_attrs:
+            class_attr_count[k] = class_attr_count.get(k, 0) + 1
+    for m in index.modules.values():
+        globals_ = set(m.imports) | set(m.classes) | set(m.functions)
+        for st in m.tree.body:
+            if isinstance(st, (ast.Import, ast.ImportFrom)):
+                globals_ |= {(a.asname or a.name).split(".")[0] for a in st.names if a.name != "*"}
+        star = any(isinstance(st, ast.ImportFrom) and any(a.name == "*" for a in st.names) for st in m.tree.body)
+        # module-level tables
+        mod_consts = {}
+        name_stores = {}
+        for n in ast.walk(m.tree):
+            if isinstance(n, ast.Name) and isinstance(n.ctx, (ast.Store, ast.Del)):
+                name_stores[n.id] = name_stores.get(n.id, 0) + 1
+            elif isinstance(n, ast.arg):
+                name_stores[n.arg] = name_stores.get(n.arg, 0) + 1
+        for st in m.tree.body:
+            if isinstance(st, ast.Assign) and len(st.targets) == 1 and isinstance(st.targets[0], ast.Name):
+                nm = st.targets[0].id
+                if nm.startswith("_") and not nm.startswith("__") and name_stores.get(nm) == 1 and \
+                        isinstance(st.value, (ast.Tuple, ast.List, ast.Constant)) and _table_expr(st.value, globals_ if not star else globals_ | _names_in(st.value)):
+                    mod_consts[nm] = st.value
+        if mod_consts:
+            class RM(ast.NodeTransformer):
+                def visit_Name(self, n):
+                    if isinstance(n.ctx, ast.Load) and n.id in mod_consts:
+                        done[f"{m.rel}::{n.id}"] = n.id
+                        return ast.copy_location(copy.deepcopy(mod_consts[n.id]), n)
+                    return n
+            for st in m.tree.body:
+                if isinstance(st, (ast.FunctionDef, ast.ClassDef)):
+                    RM().visit(st)
+                    ast.fix_missing_locations(st)
+        # class-level tables
+        for c in m.all_classes():
+            if c.is_enum():
+                continue
+            consts = {}
+            for k, v in c.class_attrs.items():
+                if k.startswith("_") and not k.startswith("__") and class_attr_count.get(k) == 1 and not stored_attrs.get(k) and \
+                        isinstance(v, (ast.Tuple, ast.List, ast.Constant)) and not (isinstance(v, ast.Constant) and isinstance(v.value, str)) and \
+                        _table_expr(v, globals_ if not star else globals_ | _names_in(v)):
+                    consts[k] = v
+            if not consts:
+                continue
+
+            class RC(ast.NodeTransformer):
+                def visit_Attribute(self, n):
+                    self.generic_visit(n)
+                    if isinstance(n.ctx, ast.Load) and n.attr in consts and isinstance(n.value, ast.Name) and n.value.id in ("self", "cls", c.name):
+                        done[f"{c.site}.{n.attr}"] = n.attr
+                        return ast.copy_location(copy.deepcopy(consts[n.attr]), n)
+                    return n
+            for fs in c.methods.values():
+                for f in fs:
+                    RC().visit(f.node)
+                    ast.fix_missing_locations(f.node)
+    return done
+
+
+def _names_in(e):
+    return {n.id for n in ast.walk(e) if isinstance(n, ast.Name)}
+
+
+# ---- expression helpers ---------------------------------------------------------------------------------------------------
+def open_expression_helpers(index):
+    """`X._h()` where `_h` is a *new* private method whose body is one `return <expr>` over `self` only (no parameters), and
+    whose name is defined once in the whole package: replaced by <expr> with self := X (X a plain name).  Then two
+    consequences are simplified: f(**{"a": x, "b": y}) becomes f(a=x, b=y), and {"a": x, "b": y} == {"a": u, "b": v}
+    becomes x == u and y == v.  Returns {site: helper}."""
+    import copy
+    defs = {}
+    for c in index.all_classes():
+        for name, fs in c.methods.items():
+            defs.setdefault(name, []).extend(fs)
+    helpers = {}
+    for name, fs in defs.items():
+        if len(fs) != 1 or not name.startswith("_") or name.startswith("__"):
+            continue
+        f = fs[0]
+        if f"{f.module.rel}::{f.qual}" in _anchors() or f.decorators:
+            continue
+        a = f.node.args
+        if [x.arg for x in a.args] != ["self"] or a.vararg or a.kwarg or a.kwonlyargs:
+            continue
+        body = [s for s in f.node.body if not (isinstance(s, ast.Expr) and isinstance(s.value, ast.Constant))]
+        if len(body) != 1 or not isinstance(body[0], ast.Return) or body[0].value is None:
+            continue
+        v = body[0].value
+        if any(isinstance(n, (ast.Call, ast.Lambda, ast.Yield, ast.Await, ast.NamedExpr, ast.ListComp, ast.GeneratorExp, ast.DictComp, ast.SetComp))
+               for n in ast.walk(v)):
+            continue                                    # reads only
+        if any(isinstance(n, ast.Name) and n.id != "self" and n.id not in f.module.imports and n.id not in f.module.classes
+               for n in ast.walk(v)):
+            continue
+        helpers[name] = (f, v)
+    done = {}
+    if not helpers:
+        return done
+
+    class Open(ast.NodeTransformer):
+        def __init__(self, site):
+            self.site = site
+
+        def visit_Call(self, n):
+            self.generic_visit(n)
+            f = n.func
+            if isinstance(f, ast.Attribute) and f.attr in helpers and isinstance(f.value, ast.Name) and not n.args and not n.keywords:
+                recv = f.value.id
+                expr = copy.deepcopy(helpers[f.attr][1])
+
+                class S(ast.NodeTransformer):
+                    def visit_Name(self, x):
+                        return ast.copy_location(ast.Name(id=recv, ctx=x.ctx), x) if x.id == "self" else x
+                done.setdefault(self.site, []).append(f.attr)
+                new = S().visit(expr)
+                for x in ast.walk(new):
+                    ast.copy_location(x, n)
+                return new
+            return n
+
+    class Simplify(ast.NodeTransformer):
+        def visit_Call(self, n):
+            self.generic_visit(n)
+            kws = []
+            for k in n.keywords:
+                if k.arg is None and isinstance(k.value, ast.Dict) and k.value.keys and \
+                        all(isinstance(x, ast.Constant) and isinstance(x.value, str) and x.value.isidentifier() for x in k.value.keys):
+                    kws.extend(ast.keyword(arg=x.value, value=v) for x, v in zip(k.value.keys, k.value.values))
+                else:
+                    kws.append(k)
+            n.keywords = kws
+            return n
+
+        def visit_Compare(self, n):
+            self.generic_visit(n)
+            if len(n.ops) == 1 and isinstance(n.ops[0], (ast.Eq, ast.NotEq)) and isinstance(n.left, ast.Dict) and isinstance(n.comparators[0], ast.Dict):
+                l, r = n.left, n.comparators[0]
+                lk = [x.value if isinstance(x, ast.Constant) else None for x in l.keys]
+                rk = [x.value if isinstance(x, ast.Constant) else None for x in r.keys]
+                if lk and None not in lk and len(set(lk)) == len(lk) and sorted(map(repr, lk)) == sorted(map(repr, rk)) and len(set(rk)) == len(rk):
+                    rv = dict(zip(rk, r.values))
+                    parts = [ast.Compare(left=a, ops=[ast.Eq()], comparators=[rv[k]]) for k, a in zip(lk, l.values)]
+                    new = ast.BoolOp(op=ast.And(), values=parts) if len(parts) > 1 else parts[0]
+                    if isinstance(n.ops[0], ast.NotEq):
+                        new = ast.UnaryOp(op=ast.Not(), operand=new)
+                    for x in ast.walk(new):
+                        if not hasattr(x, "lineno"):
+                            ast.copy_location(x, n)
+                    return ast.copy_location(new, n)
+            return n
+
+        def visit_BoolOp(self, n):
+            self.generic_visit(n)
+            vals = []
+            for v in n.values:                          # a and (b and c)  ->  a and b and c
+                if isinstance(v, ast.BoolOp) and type(v.op) is type(n.op):
+                    vals.extend(v.values)
+                else:
+                    vals.append(v)
+            n.values = vals
+            return n
+    for m in index.modules.values():
+        funcs = list(m.functions.values()) + [f for c in m.all_classes() for fs in c.methods.values() for f in fs]
+        for f in funcs:
+            if f.node.name in helpers:
+                continue
+            before = len(done.get(f.site, ()))
+            Open(f.site).visit(f.node)
+            if len(done.get(f.site, ())) != before:
+                Simplify().visit(f.node)
+                ast.fix_missing_locations(f.node)
+    return done
+
+
+# ---- lists used as a cursor ---------------------------------------------------------------------------------------------
+def scalarise_last_lists(index):
+    """A local list that is only ever created with one element, appended to, and read at [-1] is a cursor that remembers the
+    last value: `xs = [a]` / `xs.append(b)` / `xs[-1]` become `xs = a` / `xs = b` / `xs`.  Nothing else may touch the list
+    (no iteration, no len(), no other index, not passed anywhere), so no other observation of it exists."""
+    done = {}
+    for m in index.modules.values():
+        funcs = list(m.functions.values()) + [f for c in m.all_classes() for fs in c.methods.values() for f in fs]
+        for f in funcs:
+            cands = {}
+            for n in _own_nodes(f.node):
+                if isinstance(n, ast.Assign) and len(n.targets) == 1 and isinstance(n.targets[0], ast.Name) and \
+                        isinstance(n.value, ast.List) and len(n.value.elts) == 1 and not isinstance(n.value.elts[0], ast.Starred):
+                    cands.setdefault(n.targets[0].id, []).append(n)
+            if not cands:
+                continue
+            parents = {}
+            for n in ast.walk(f.node):
+                for ch in ast.iter_child_nodes(n):
+                    parents[ch] = n
+            for name, inits in cands.items():
+                ok = True
+                appends, lasts = [], []
+                for n in ast.walk(f.node):
+                    if not (isinstance(n, ast.Name) and n.id == name):
+                        continue
+                    p = parents.get(n)
+                    if isinstance(n.ctx, ast.Store):
+                        if not (isinstance(p, ast.Assign) and p in inits):
+                            ok = False
+                        continue
+                    if isinstance(p, ast.Subscript) and p.value is n and isinstance(p.ctx, ast.Load) and \
+                            isinstance(p.slice, ast.UnaryOp) and isinstance(p.slice.op, ast.USub) and \
+                            isinstance(p.slice.operand, ast.Constant) and p.slice.operand.value == 1:
+                        lasts.append(p)
+                        continue
+                    pp = parents.get(p)
+                    ppp = parents.get(pp)
+                    if isinstance(p, ast.Attribute) and p.attr == "append" and isinstance(pp, ast.Call) and pp.func is p and \
+                            len(pp.args) == 1 and not pp.keywords and isinstance(ppp, ast.Expr):
+                        appends.append(ppp)
+                        continue
+                    ok = False
+                if not ok or not lasts or not appends:
+                    continue
+                for a in inits:
+                    a.value = a.value.elts[0]
+                for e in appends:
+                    new = ast.Assign(targets=[ast.Name(id=name, ctx=ast.Store())], value=e.value.args[0])
+                    ast.copy_location(new, e)
+                    ast.fix_missing_locations(new)
+                    blk = parents[e]
+                    for field in ("body", "orelse", "finalbody"):
+                        lst = getattr(blk, field, None)
+                        if isinstance(lst, list) and e in lst:
+                            lst[lst.index(e)] = new
+                for s in lasts:
+                    p = parents[s]
+                    for field, val in ast.iter_fields(p):
+                        if val is s:
+                            setattr(p, field, ast.copy_location(ast.Name(id=name, ctx=ast.Load()), s))
+                        elif isinstance(val, list) and s in val:
+                            val[val.index(s)] = ast.copy_location(ast.Name(id=name, ctx=ast.Load()), s)
+                done.setdefault(f.site, []).append(name)
+    return done
+
+
+# ---- sum() over a comprehension --------------------------------------------------------------------------------------------
+def desugar_sums(index):
+    """`x = sum(E for T in IT if C)` (optionally with a start value) is the loop it abbreviates: `x = 0` /
+    `for T' in IT: if C': x += E'`, with the comprehension's targets renamed so that they do not leak.  The rules read running
+    totals as loop-carried folds, so both spellings give the same fold."""
+    import copy
+    done = {}
+    n_ = [0]
+    for m in index.modules.values():
+        funcs = list(m.functions.values()) + [f for c in m.all_classes() for fs in c.methods.values() for f in fs]
+        for f in funcs:
+            def walk_block(stmts):
+                i = 0
+                while i < len(stmts):
+                    s = stmts[i]
+                    for field in ("body", "orelse", "finalbody"):
+                        blk = getattr(s, field, None)
+                        if isinstance(blk, list) and blk and isinstance(blk[0], ast.stmt) and not isinstance(s, (ast.FunctionDef, ast.AsyncFunctionDef, ast.ClassDef)):
+                            walk_block(blk)
+                    v = getattr(s, "value", None)
+                    if isinstance(s, ast.Assign) and len(s.targets) == 1 and isinstance(s.targets[0], ast.Name) and isinstance(v, ast.Call) and \
+                            isinstance(v.func, ast.Name) and v.func.id == "sum" and 1 <= len(v.args) <= 2 and not v.keywords and \
+                            isinstance(v.args[0], (ast.GeneratorExp, ast.ListComp)) and len(v.args[0].generators) == 1 and \
+                            not v.args[0].generators[0].is_async:
+                        g = v.args[0].generators[0]
+                        x = s.targets[0].id
+                        if any(isinstance(n, ast.Name) and n.id == x for n in ast.walk(v)):
+                            i += 1
+                            continue
+                        n_[0] += 1
+                        ren = {n.id: f"__s{n_[0]}_{n.id}" for n in ast.walk(g.target) if isinstance(n, ast.Name)}
+
+                        class R(ast.NodeTransformer):
+                            def visit_Name(self, n):
+                                return ast.copy_location(ast.Name(id=ren[n.id], ctx=n.ctx), n) if n.id in ren else n
+                        body = [ast.AugAssign(target=ast.Name(id=x, ctx=ast.Store()), op=ast.Add(), value=R().visit(copy.deepcopy(v.args[0].elt)))]
+                        for t in reversed(g.ifs):
+                            body = [ast.If(test=R().visit(copy.deepcopy(t)), body=body, orelse=[])]
+                        init = v.args[1] if len(v.args) == 2 else ast.Constant(value=0)
+                        new = [ast.Assign(targets=[ast.Name(id=x, ctx=ast.Store())], value=init),
+                               ast.For(target=R().visit(copy.deepcopy(g.target)), iter=g.iter, body=body, orelse=[])]
+                        for st in new:
+                            ast.copy_location(st, s)
+                            for n in ast.walk(st):
+                                if not hasattr(n, "lineno"):
+                                    ast.copy_location(n, s)
+                            ast.fix_missing_locations(st)
+                        stmts[i:i + 1] = new
+                        done.setdefault(f.site, []).append(x)
+                        i += 2
+                        continue
+                    i += 1
+            walk_block(f.node.body)
+    return done
+
+
+# ---- xs.extend(<comprehension>) ----------------------------------------------------------------------------------------------
+def desugar_extends(index):
+    """The statement `xs.extend(E for T in IT if C)` is `for T' in IT: if C': xs.append(E')` (elements are produced and appended
+    one by one in both spellings; the comprehension's targets are renamed so that they do not leak)."""
+    import copy
+    done = {}
+    n_ = [0]
+    for m in index.modules.values():
+        funcs = list(m.functions.values()) + [f for c in m.all_classes() for fs in c.methods.values() for f in fs]
+        for f in funcs:
+            def walk_block(stmts):
+                for i, s in enumerate(list(stmts)):
+                    for field in ("body", "orelse", "finalbody"):
+                        blk = getattr(s, field, None)
+                        if isinstance(blk, list) and blk and isinstance(blk[0], ast.stmt) and not isinstance(s, (ast.FunctionDef, ast.AsyncFunctionDef, ast.ClassDef)):
+                            walk_block(blk)
+                    v = s.value if isinstance(s, ast.Expr) else None
+                    if isinstance(v, ast.Call) and isinstance(v.func, ast.Attribute) and v.func.attr == "extend" and len(v.args) == 1 and \
+                            not v.keywords and isinstance(v.args[0], (ast.GeneratorExp, ast.ListComp)) and len(v.args[0].generators) == 1 and \
+                            not v.args[0].generators[0].is_async and _simple_arg(v.func.value):
+                        g = v.args[0].generators[0]
+                        n_[0] += 1
+                        ren = {n.id: f"__e{n_[0]}_{n.id}" for n in ast.walk(g.target) if isinstance(n, ast.Name)}
+
+                        class R(ast.NodeTransformer):
+                            def visit_Name(self, n):
+                                return ast.copy_location(ast.Name(id=ren[n.id], ctx=n.ctx), n) if n.id in ren else n
+                        app = ast.Expr(value=ast.Call(func=ast.Attribute(value=copy.deepcopy(v.func.value), attr="append", ctx=ast.Load()),
+                                                      args=[R().visit(copy.deepcopy(v.args[0].elt))], keywords=[]))
+                        body = [app]
+                        for t in reversed(g.ifs):
+                            body = [ast.If(test=R().visit(copy.deepcopy(t)), body=body, orelse=[])]
+                        new = ast.For(target=R().visit(copy.deepcopy(g.target)), iter=g.iter, body=body, orelse=[])
+                        ast.copy_location(new, s)
+                        for n in ast.walk(new):
+                            if not hasattr(n, "lineno"):
+                                ast.copy_location(n, s)
+                        ast.fix_missing_locations(new)
+                        stmts[stmts.index(s)] = new
+                        done.setdefault(f.site, []).append(ast.unparse(v.func.value))
+            walk_block(f.node.body)
+    return done
